@@ -195,6 +195,22 @@ def main():
     evals = sum(s['evaluations'] for rr in rres for s in rr['stats'].values())
     distinct = sum(s['distinct_nontrivial'] for rr in rres for s in rr['stats'].values())
     if cfg.get('R') and evals == 0 and not broken: broken.append('engine R evaluated zero cases')
+    # ------------------------------------------------------------------ prelude soundness (thorough tier): the axioms of pyvc/theory.py as Lean theorems
+    lean_status = 'not run (quick tier)'
+    if tier == 'thorough' and cfg.get('P'):
+        try:
+            import re as _re
+            names = set()
+            for f in ('pyvc/theory.py', 'pyvc/comps.py', 'contracts/base_carver.py'):
+                names |= set(_re.findall(r'-- lean: ([A-Za-z_0-9]+)', open(os.path.join(ROOT, f)).read()))
+            lean_src = open(os.path.join(ROOT, 'lean', 'PreludeSound.lean')).read()
+            missing_thm = sorted(n for n in names if ('theorem %s ' % n) not in lean_src and ('theorem %s_' % n) not in lean_src)
+            pl = subprocess.run([os.path.join(ROOT, 'lean', 'check.sh')], capture_output=True, text=True, timeout=1500)
+            lean_status = (pl.stdout.strip().split('\n') or [''])[-1]
+            if pl.returncode != 0: broken.append('lean prelude check failed: ' + (pl.stdout + pl.stderr)[-400:])
+            if missing_thm: broken.append('prelude axioms without a Lean theorem: %r' % missing_thm)
+        except Exception as e:
+            broken.append('lean prelude check could not run: %s' % e)
     # ------------------------------------------------------------------ evidence
     level = cfg['level']
     funcs = [dict(function=fr['function'], status=fr['status'], obligations=len(fr['obligations']),
@@ -211,7 +227,7 @@ def main():
         rule='bounded part (engine R): cases enumerated per contract clause as stated in `bounded[].bounds`; a case is distinct/non-trivial when its literal input differs from all earlier ones and satisfies the clause precondition',
         samples=samples or ['(none)'],
         explanation=cfg.get('explanation', ''),
-        exhaustive=False, known_findings_reported=sorted(reported_known), undecided=undecided, checker_problems=broken)
+        lean_prelude=lean_status, exhaustive=False, known_findings_reported=sorted(reported_known), undecided=undecided, checker_problems=broken)
     if not evals:
         cov.pop('evaluations'); cov.pop('distinct_nontrivial')
         if level != 'proof': cov['evaluations'] = 1; cov['distinct_nontrivial'] = 0
